@@ -1,16 +1,72 @@
 """C20 — snapshot archives: exact round trip, corruption always detected."""
 import json, os, collections
 import vlib
-from vlib import coq_bytes, coq_bool, coq_list, coq_N, coq_str
+from vlib import coq_bool, coq_list, coq_N, coq_str
 
 PROP = "C20"
 PROP_FILE = "Properties/C20.v"
 SENTINEL = "[999]%N"   # a digest that is the hash of no byte string the case contains
 
+ERR = {1: "EGzipHeader", 2: "EFraming", 3: "EReadMeta", 4: "EDecodeMeta", 5: "EReadState", 6: "EReadSums",
+       7: "EUnexpected", 8: "ESumsParse", 9: "EListMissing", 10: "EHashMismatch", 11: "EFileMissing",
+       12: "EGzipTrailer", 13: "ENotInArchive", 14: "ESumsScan"}
+# 99 = an error text the harness does not recognise: it has no counterpart in the model, the oracle reports it
+VERDICT_BITS = {1: "model-result-differs", 2: "glue-table-miss", 4: "outside-corrupt-relation",
+                8: "writer-view-differs-from-model-write", 16: "dec_enc-fails-on-this-metadata"}
+
+
+def coq_bytes_lit(b):
+    """bytes -> Coq list N; runs of >= 64 equal bytes are written with Run.C20.rep"""
+    if len(b) < 256:
+        return "[" + ";".join(str(x) for x in b) + "]%N" if len(b) else "[]"
+    parts, lit, i = [], [], 0
+    while i < len(b):
+        j = i
+        while j < len(b) and b[j] == b[i]:
+            j += 1
+        if j - i >= 64:
+            if lit:
+                parts.append("[" + ";".join(str(x) for x in lit) + "]%N")
+                lit = []
+            parts.append("rep %d%%N %d%%N" % (j - i, b[i]))
+        else:
+            lit += list(b[i:j])
+        i = j
+    if lit:
+        parts.append("[" + ";".join(str(x) for x in lit) + "]%N")
+    return "(" + " ++ ".join(parts) + ")"
+
+
+class Interner:
+    """Byte strings of a case file are written once (Definition dK) and referred to by name: a
+    damaged archive repeats most byte strings of the intact one, several times per case."""
+
+    def __init__(self):
+        self.names, self.defs = {}, []
+
+    def __call__(self, b):
+        if isinstance(b, str):
+            b = bytes.fromhex(b)
+        if len(b) < 8:
+            return coq_bytes_lit(b)
+        n = self.names.get(b)
+        if n is None:
+            n = "d%d" % len(self.names)
+            self.names[b] = n
+            self.defs.append("Definition %s : bytes := %s." % (n, coq_bytes_lit(b)))
+        return n
+
+
+coq_bytes = Interner()     # replaced per shard
+
+
+def members_to_coq(ms):
+    return coq_list(["Member %s %s %s" % (coq_str(m["name"].encode("utf-8")), coq_bytes(m["data"]), coq_bool(m["intact"]))
+                     for m in ms])
+
 
 def case_to_coq(c):
-    ms = coq_list(["Member %s %s %s" % (coq_str(bytes.fromhex(bytes(m["name"], "utf-8").hex())), coq_bytes(m["data"]), coq_bool(m["intact"]))
-                   for m in c["members"]])
+    ms = members_to_coq(c["members"])
     dec = coq_list(["(%s, %s, %s)" % (coq_N(d["cur"]), coq_bytes(d["data"]),
                                      ("Some %s" % coq_N(d["new"])) if d["ok"] else "None") for d in c["dec"]])
     lines = coq_list([("Some (%s, %s)" % (coq_bytes(l["pre"]) if l["known"] else SENTINEL,
@@ -18,24 +74,29 @@ def case_to_coq(c):
                       for l in c["lines"]])
     e = c["expect"]
     exp = ("Ok (%s, %s)" % (coq_N(e["meta"]), coq_bytes(e["state"]))) if e["ok"] else "Err (%s)" % ERR[e["err"]]
-    return "Case %s %s %s %s %s %s %s (%s)" % (coq_bool(c["hdr"]), ms, coq_bool(c["term"]), coq_bool(c["trailer"]),
-                                               dec, coq_bytes(c["sums"]), lines, exp)
+    w = c.get("write")
+    wr = "None" if not w else "(Some (W %s %s %s %s %s))" % (coq_bool(w["ord"]), coq_N(w["meta"]), coq_bytes(w["enc"]),
+                                                           coq_bytes(w["state"]), coq_bytes(w["sums"]))
+    return "Case %s %s %s %s %s %s %s %s %s base%d %s (%s)" % (
+        coq_bool(c["gz"]), coq_bool(c["hdr"]), ms, coq_bool(c["term"]), coq_bool(c["trailer"]),
+        dec, coq_bytes(c["sums"]), lines, coq_bool(c["scan"]), c["base"], wr, exp)
 
 
-ERR = {1: "EGzipHeader", 2: "EFraming", 3: "EReadMeta", 4: "EDecodeMeta", 5: "EReadState", 6: "EReadSums",
-       7: "EUnexpected", 8: "ESumsParse", 9: "EListMissing", 10: "EHashMismatch", 11: "EFileMissing",
-       12: "EGzipTrailer", 13: "ENotInArchive"}
-
-
-def shard_text(cases):
+def shard_text(cases, bases):
+    global coq_bytes
+    coq_bytes = Interner()
+    used = sorted(set(c["base"] for c in cases))
+    defs = "\n".join("Definition base%d : list member := %s." % (b, members_to_coq(bases[b])) for b in used)
     body = ";\n  ".join(case_to_coq(c) for c in cases)
-    return ("From Verif Require Import Base.Prelude Archive.Model Run.C20.\n"
+    return ("From Verif Require Import Base.Prelude Archive.Model Run.C20.\n%s\n%s\n"
             "Definition cases : list case := [\n  %s\n].\n"
-            "Definition M := Eval vm_compute in mismatches cases.\nPrint M.\n" % body)
+            "Definition M := Eval vm_compute in mismatches cases.\nPrint M.\n" % ("\n".join(coq_bytes.defs), defs, body))
 
 
 def signature(c):
     """structured signature of an oracle failure (for known_findings matching)"""
+    if c.get("sig"):
+        return c["sig"]
     o = c["oracle"]
     sig = {"kind": o.split(":")[0]}
     if o.startswith("accepted-with-unexpected-member"):
@@ -46,81 +107,149 @@ def signature(c):
     return sig
 
 
+def kind_class(c):
+    k = c["kind"]
+    gz = "/gz" if c["gz"] else ""
+    if k.endswith("+gz"):
+        k = k[:-3]
+    return k.split("@")[0].split(":")[0].split("#")[0] + gz
+
+
 def run(ctx):
     info, ok = vlib.proof_stage(ctx, PROP_FILE, ["Run/C20.v"])
     cov = dict(info)
     cov["trusted_base"] = vlib.STD_TRUSTED + [
-        "Section hypotheses of Properties/C20.v: SHA-256 treated as injective (collision freedom); encoding/json round trip of raft.SnapshotMeta and failure on empty input; bufio.Scanner+fmt.Sscanf line codec round trip",
-        "archive/tar and compress/gzip (stdlib) map damaged bytes to the member-level view the model reads; digests in SHA256SUMS lines are named by their preimage among the byte strings of the case (sound under collision freedom)",
-        "modelled, not verified: tar/gzip framing, temp-file handling, raft.Restore itself"]
-    assumptions = ["hash collision freedom", "stdlib tar/gzip/json/Sscanf as oracles for the external Section variables"]
+        "Section hypotheses of Properties/C20.v, each passed only to the theorems that need it: SHA-256 treated as injective (collision freedom, H_inj); encoding/json on raft.SnapshotMeta: round trip (dec_enc), failure on empty input (dec_empty), non-empty encoding (enc_nonempty), an encoding does not split into two decodable pieces (dec_pieces); bufio.Scanner+fmt.Sscanf: round trip and no scanner error ON THE TWO LINES THE WRITER WRITES (parse_print, scan_print), no line from empty input (parse_empty). All but H_inj are tested directly against the Go standard library on every run (coverage.hypothesis_tests); dec_enc is FALSE for metadata holding a string that is not valid UTF-8 (open finding)",
+        "archive/tar and compress/gzip (stdlib) map damaged bytes to the neutral member-level view the model reads and the decidable corruption test classifies; digests in SHA256SUMS lines are named by their preimage among the byte strings of the case (sound under collision freedom)",
+        "modelled, not verified: tar/gzip framing, temp-file handling (snapshot.Read leaves its temp file behind on every refused archive: counted, not part of the property), raft.Restore itself; the writer's precondition metadata.Size = len(state) (raft's snapshot stores set it; with Size < len the writer silently archives only the first Size bytes -- counted under size_classes, the model's payload is that prefix)"]
+    assumptions = ["hash collision freedom", "stdlib tar/gzip/json/Scanner/Sscanf as oracles for the external Section variables",
+                   "writer precondition: metadata.Size = length of the state payload"]
     if not ok:
         cov.update({"evaluations": 0, "distinct_nontrivial": 0, "rule": "proof stage failed", "samples": []})
         return ctx.finish(cov, assumptions)
 
     binp = vlib.go_build("archive")
     out = os.path.join(ctx.workdir, "cases.jsonl")
-    rc, o = vlib.sh([binp, "-seed", str(ctx.seed), "-tier", ctx.tier, "-out", out], timeout=3000)
+    rc, o = vlib.sh([binp, "-seed", str(ctx.seed), "-tier", ctx.tier, "-out", out], timeout=6000)
     if rc != 0:
         raise vlib.BuildError("harness run failed: " + o[-2000:])
 
     total = 0
     kinds = collections.Counter()
     verdicts = collections.Counter()
-    coq_cases, oracle_fail = [], []
+    accepted_class = collections.Counter()
+    coq_cases, oracle_fail, bases = [], [], {}
     accepted_damaged = 0
+    intact = collections.Counter()
+    summary = {}
     for line in open(out):
         c = json.loads(line)
+        if c["type"] == "base":
+            bases[c["id"]] = c["members"]
+            continue
+        if c["type"] == "summary":
+            summary = c
+            continue
         total += 1
-        kinds[c["kind"].split("@")[0].split(":")[0].split("#")[0] + ("/gz" if c["gz"] else "")] += 1
-        verdicts["ok" if c["expect"]["ok"] else ERR[c["expect"]["err"]]] += 1
-        if c["expect"]["ok"] and c["kind"] != "identity":
+        kinds[kind_class(c)] += 1
+        verdicts["ok" if c["expect"]["ok"] else ERR.get(c["expect"]["err"], "unrecognised")] += 1
+        if c["expect"]["ok"] and not c["kind"].startswith("identity"):
             accepted_damaged += 1
+            accepted_class[c.get("class", "?")] += 1
+        if c.get("write"):
+            intact["%s/ord=%s" % ("rewritten-by-harness" if c["write"].get("forced") else "written-by-consul",
+                                  "meta-first" if c["write"]["ord"] else "state-first")] += 1
         if c["to_coq"]:
             coq_cases.append(c)
         if c["oracle"]:
             oracle_fail.append(c)
 
-    # ---- model vs implementation, inside Coq ----
+    # ---- model vs implementation, corruption relation, writer: inside Coq ----
     per = 400
     shards = [coq_cases[i:i + per] for i in range(0, len(coq_cases), per)]
-    res = vlib.coq_run_shards(PROP, [shard_text(s) for s in shards])
-    mism = []
+    res = vlib.coq_run_shards(PROP, [shard_text(s, bases) for s in shards],
+                              jobs=int(os.environ.get("VERIF_JOBS", "12")))
+    bad = []          # (case, verdict bits)
     for s, (okk, idx, raw) in zip(shards, res):
         if not okk:
             ctx.violation({"kind": "case-file-failed", "log": raw}, found_input=False)
             continue
-        mism += [s[i] for i in idx]
+        bad += [(s[v // 32], v % 32) for v in idx]
 
     # ---- direct oracle on the implementation ----
-    new_fail = []
+    new_fail, known_ids = [], set()
+    known_hits = collections.Counter()
     for c in oracle_fail:
         sig = signature(c)
         f = vlib.match_known(PROP, sig)
         if f:
             ctx.known(f, f["what"])
+            known_ids.add(c["id"])
+            known_hits[json.dumps(sig, sort_keys=True)] += 1
         else:
             new_fail.append(c)
     for c in new_fail[:5]:
         ctx.violation({"kind": "oracle", "reason": c["oracle"], "mutation": c["kind"], "gz": c["gz"],
                        "archive": c.get("archive", ""), "expect": c["expect"], "signature": signature(c),
+                       "replay": c.get("replay"),
                        "replay_cmd": "build/bin/archive -replay <this file>"})
-    if mism and not new_fail:
-        # correspondence broken, no failing input found by the oracle on any generated archive
-        c = mism[0]
-        ctx.violation({"kind": "correspondence", "theorem": "Run.C20.check (model read_gz = implementation)",
-                       "mismatching_cases": len(mism), "first": {k: c[k] for k in ("kind", "gz", "archive", "members", "term", "trailer", "hdr", "lines", "expect")}},
+    # the restore path and the hypothesis tests are oracles of their own
+    rst = summary.get("restore", {})
+    for f in (rst.get("failures") or [])[:3]:
+        ctx.violation({"kind": "oracle", "reason": "restore-path", "detail": f,
+                       "replay_cmd": "the archive (hex) is in detail: build/bin/archive -replay on {\"archive\":..., \"gz\":true}"})
+    if rst.get("skipped"):
+        ctx.violation({"kind": "restore-phase-skipped", "detail": rst["skipped"]}, found_input=False)
+    hyp = (summary.get("hypotheses") or {}).get("counts", {})
+    hyp_fail = {k: v for k, v in hyp.items() if "FAIL" in k}
+    utf8_known = vlib.match_known(PROP, {"kind": "roundtrip-metadata-differs", "cause": "invalid-utf8",
+                                         "read_back": "invalid-bytes-replaced-by-U+FFFD"})
+    for k, v in hyp_fail.items():
+        if k == "dec_enc/FAIL-invalid-utf8-replaced" and utf8_known:
+            continue          # the open finding, reported through the round-trip oracle above
+        ctx.violation({"kind": "hypothesis-refuted-by-stdlib", "hypothesis": k, "count": v,
+                       "theorem": "Section hypothesis of Properties/C20.v"}, found_input=False)
+
+    # a Coq verdict is explained when the same case is an oracle failure already reported, or when it
+    # is exactly "dec_enc fails" on a case matching the open invalid-UTF-8 finding
+    unexplained = [(c, v) for (c, v) in bad if not (v == 16 and c["id"] in known_ids)]
+    bits = collections.Counter()
+    for c, v in bad:
+        for b, name in VERDICT_BITS.items():
+            if v & b:
+                bits[name] += 1
+    if unexplained and not new_fail:
+        c, v = unexplained[0]
+        ctx.violation({"kind": "correspondence",
+                       "theorem": "Run.C20.verdict (1 model read_gz = implementation; 2 glue tables complete; 4 view within corruptb/faultb of the intact view; 8 intact view = model write; 16 dec_enc)",
+                       "verdict_bits": [name for b, name in VERDICT_BITS.items() if v & b],
+                       "unexplained_cases": len(unexplained),
+                       "first": {k: c.get(k) for k in ("kind", "gz", "archive", "members", "term", "trailer", "hdr", "lines", "scan", "write", "expect", "base")},
+                       "base_view": bases.get(c["base"])},
                       found_input=False)
 
     cov.update({
         "evaluations": total,
         "distinct_nontrivial": len(coq_cases),
-        "rule": "damaged archives generated from consul-written base archives (byte flips 0x01/0x80/0xFF at every/strided position, every truncation length, member removal/duplication/reordering/injection/renaming/replacement, plain and gzip); distinct_nontrivial = archives with a distinct member-level view AND evaluated in Coq against the model (small payloads); all archives get the direct oracle",
+        "rule": "damaged archives generated from consul-written base archives (every single-bit flip at every byte of the small bases -- thorough: all 255 XOR masks --, masks 01/20/80/FF strided on the large ones, every truncation length, member removal/duplication/reordering/injection/renaming/replacement, SHA256SUMS rewrites incl. lines over 64 KiB, PAX/GNU long names, gzip multistream; plain and gzip), plus one intact archive per generated metadata value; distinct_nontrivial = archives with a distinct neutral member view AND evaluated in Coq (model result, glue completeness, corruptb/faultb against the intact view, model write for intact ones); all archives get the direct oracle",
         "traces_validated_against_impl": len(coq_cases),
-        "model_mismatches": len(mism),
+        "model_mismatches": bits.get("model-result-differs", 0),
+        "coq_verdict_bits": dict(bits),
+        "coq_verdicts_unexplained": len(unexplained),
+        "views_within_corrupt_relation": len(coq_cases) - bits.get("outside-corrupt-relation", 0),
+        "intact_archives_equal_model_write": {"by_order": dict(intact),
+                                              "failing": bits.get("writer-view-differs-from-model-write", 0)},
+        "sums_line_order_of_go_writer": summary.get("orders", {}),
         "oracle_failures": len(oracle_fail),
         "oracle_failures_unknown": len(new_fail),
+        "oracle_failures_known": dict(known_hits),
         "accepted_damaged_archives": accepted_damaged,
+        "accepted_damaged_by_class": dict(accepted_class),
+        "metadata_fuzz": {k: v for k, v in (summary.get("hypotheses") or {}).items() if k != "counts"},
+        "hypothesis_tests": hyp,
+        "restore_path": {k: v for k, v in rst.items() if k != "failures"},
+        "restore_path_failures": len(rst.get("failures") or []),
+        "temp_files_left_by_snapshot_Read": summary.get("temp_files_left_by_snapshot_Read"),
         "mutation_kinds": dict(kinds),
         "verdict_histogram": dict(verdicts),
         "samples": [{"kind": c["kind"], "gz": c["gz"], "members": [(m["name"], len(m["data"]) // 2, m["intact"]) for m in c["members"]],
